@@ -87,6 +87,27 @@ def check(ctx: Ctx) -> str:
     skipped_first = any(g == "tb.tb_frame.f_code in internal_code" and not pol for g, pol in gs)
     ctx.check(skipped_first, "rewrite:internal-first", "debug:rewrite_traceback_stack", "template frame handling not guarded by the @internalcode test",
               f"a frame is turned into a template frame on a path where `tb.tb_frame.f_code in internal_code` was not excluded (guards: {[('' if p else 'not ') + g for g, p in gs]}): the @internalcode stub the compiler emits for an unknown filter / test becomes the innermost template frame and the error is reported at the line of the enclosing root / block / macro instead of the failing line", rw.loc(fakes[0]))
+    # ... and the compiler marks the helper functions it defines inside the generated module
+    # that way: every `def` emitted by pull_dependencies (the stub raising "No filter named
+    # ...") carries @internalcode - it runs in the module prologue, before any line mark, so
+    # an unmarked stub frame becomes the innermost template frame and names line 1
+    from ..emitrules import get_paths
+
+    ndef = 0
+    unmarked: list[str] = []
+    for p_, sk in get_paths(ctx).get("pull_dependencies", []):
+        if p_.outcome != "normal":
+            continue
+        lines_ = [ln.strip() for ln in sk.text.splitlines()]
+        for i_, ln in enumerate(lines_):
+            if ln.startswith(("def ", "async def ")):
+                ndef += 1
+                if not (i_ > 0 and lines_[i_ - 1] == "@internalcode"):
+                    unmarked.append(ln)
+    ctx.check(not unmarked, "stub:internalcode", "compiler:CodeGenerator.pull_dependencies", "emitted stub function lacks @internalcode",
+              f"pull_dependencies emits `{unmarked[0][:50] if unmarked else ''}` without the @internalcode decorator: the frame of that stub (raised from when an unknown filter / test inside a conditional is evaluated) is kept by the traceback rewriter and the error is reported at the line the module prologue maps to instead of the expression's line",
+              "src/jinja2/compiler.py", detail={"stub_definitions": ndef, "unmarked": len(unmarked)})
+    ctx.floor("stub definitions emitted by pull_dependencies", ndef, 1)
     lin = [c for c in astq.calls(loop) if astq.callee(c).endswith("get_corresponding_lineno")]
     ctx.check(len(lin) == 1 and ast.unparse(lin[0].args[0]) == "tb.tb_lineno", "rewrite:lineno", "debug:rewrite_traceback_stack", "line translation", "the fake frame must carry template.get_corresponding_lineno(tb.tb_lineno)", rw.loc())
     return __doc__ or ""
